@@ -81,19 +81,56 @@ type UnitOpts struct {
 	// requires and assume@ clauses are always kept. Independent groups of invariants are proved
 	// inductive separately (a conjunction of inductive invariants is inductive), which keeps each
 	// solver query small.
+	// A group written g$ matches the label g only.
 	Groups []string
+	// AssumeGroups: labelled clauses of these groups are kept as hypotheses (loop invariants assumed at
+	// the loop head, assert@ clauses assumed at their anchor) but generate no obligation in this unit:
+	// they are proved in another unit of the same plan (the plan checks that). Sound: a conjunction of
+	// invariants is inductive if each conjunct is preserved under the assumption of all of them.
+	AssumeGroups []string
+}
+
+func groupMatch(groups []string, label string) bool {
+	for _, g := range groups {
+		if strings.HasSuffix(g, "$") {
+			if label == g[:len(g)-1] {
+				return true
+			}
+			continue
+		}
+		if label == g || strings.HasPrefix(label, g+"-") {
+			return true
+		}
+	}
+	return false
 }
 
 func (o UnitOpts) keep(label string) bool {
 	if len(o.Groups) == 0 || label == "" {
 		return true
 	}
-	for _, g := range o.Groups {
-		if label == g || strings.HasPrefix(label, g+"-") {
-			return true
-		}
+	return groupMatch(o.Groups, label) || groupMatch(o.AssumeGroups, label)
+}
+
+// Proves: a clause with this label is an obligation of a unit run with these options (not filtered out by
+// Groups, not merely assumed through AssumeGroups).
+func (o UnitOpts) Proves(label string) bool {
+	if len(o.Groups) == 0 || label == "" {
+		return true
 	}
-	return false
+	return groupMatch(o.Groups, label)
+}
+
+// assumedLabel: the obligation anchored at anchor (.../<label>) belongs to an assumed group.
+func (o UnitOpts) assumedLabel(anchor string) bool {
+	if len(o.AssumeGroups) == 0 {
+		return false
+	}
+	label := anchor[strings.LastIndex(anchor, "/")+1:]
+	if label == "" {
+		return false
+	}
+	return groupMatch(o.AssumeGroups, label) && !groupMatch(o.Groups, label)
 }
 
 // filterContract returns a copy of ct restricted to the clause groups of opts.
@@ -110,7 +147,13 @@ func filterContract(ct *Contract, o UnitOpts) *Contract {
 			rest := c.Label[len("only-"):]
 			keep := false
 			for _, g := range o.Groups {
-				if rest == g || strings.HasPrefix(rest, g+"-") {
+				g = strings.TrimSuffix(g, "$")
+				// only-chanw-shape serves the group chanw and every sub-group chanw-...
+				first := rest
+				if i := strings.Index(rest, "-"); i >= 0 {
+					first = rest[:i]
+				}
+				if rest == g || strings.HasPrefix(rest, g+"-") || g == first || strings.HasPrefix(g, first+"-") {
 					keep = true
 				}
 			}
